@@ -134,8 +134,23 @@ def _mk_new_type(node, name, base_spec, abstract):
             body["__repr__"] = lambda self: f"{name}({self.ufl_operands[0]!r})"
         if second is not None:
             body["__init__"] = lambda self, a: ufl.core.operator.Operator.__init__(self, (a,))
+        traits = {}
+        if kind == "op" and second is None and not getattr(base, "_sim_kind", None):
+            # the decorator's own options, chosen from the type's name (same on every node):
+            # shape / indices attached by the decorator instead of written out, trait flags
+            h = sum(map(ord, name))
+            if h % 3 == 0:
+                for k_ in ("ufl_shape", "ufl_free_indices", "ufl_index_dimensions"):
+                    body.pop(k_)
+                traits.update(inherit_shape_from_operand=0, inherit_indices_from_operand=0)
+            if h % 5 == 1:
+                traits["is_terminal_modifier"] = True
+            if h % 7 == 2:
+                traits["is_differential"] = True
+            if h % 11 == 3:
+                traits["is_evaluation"] = True
         cls = type(name, (base,) if second is None else (base, second), body)
-        cls = ufl_type(is_abstract=abstract, num_ops=1)(cls)
+        cls = ufl_type(is_abstract=abstract, num_ops=1, **traits)(cls)
     elif kind == "geo":
         body = {"__slots__": (), "name": name.lower(), "_sim_kind": kind}
         cls = type(name, (base,), body)
